@@ -18,7 +18,8 @@ wt = '/tmp/confirm_%s_%d' % (tag, os.getpid())
 subprocess.check_call(['git', '-C', '/repo', 'worktree', 'add', '-q', '--detach', wt, 'HEAD'])
 meta = json.load(open(os.path.join(dst, 'meta.json')))
 try:
-    subprocess.check_call(['git', '-C', wt, 'apply', os.path.join(dst, 'patch.diff')])
+    if subprocess.call(['git', '-C', wt, 'apply', os.path.join(dst, 'patch.diff')]) != 0:
+        subprocess.check_call(['git', '-C', wt, 'apply', '--3way', os.path.join(dst, 'patch.diff')])
     env = dict(os.environ, NUMBA_CACHE_DIR='/tmp/nbc_confirm_%s' % pid, PYTHONPATH=os.path.join(wt, 'src'))
     junit = '/tmp/confirm_%s.xml' % pid
     subprocess.run(['/venv/bin/python', '-m', 'pytest', '-q', '-p', 'no:cacheprovider', '--timeout=900', '--continue-on-collection-errors',
